@@ -27,7 +27,9 @@ def recipe_features(rec: Dict[str, Any], violation: Dict[str, Any] = None) -> Li
                 # pending operands: some enclosing operator form has already-evaluated siblings to the left
                 pending = False
                 for (form, idx) in ctx:
-                    if form in ("Bin", "Nary", "Tern", "Call", "GPut", "LPut") and idx >= 3:
+                    if form in ("Bin", "Nary", "Tern", "Call") and idx >= 3:
+                        pending = True
+                    if form in ("GPut", "LPut", "Suffix") and idx >= 2:
                         pending = True
                     if form in ("Bin", "Nary", "Tern") and idx >= 2 and form != "Un":
                         # first operand position of an operator: nothing pending from this form
